@@ -17,13 +17,16 @@ MANIFEST_ENTRY = {
             "cross-correlation, from the shared spectral core), the autocorrelation peaks at zero lag (strictly unless the image is "
             "periodic), an integer-shifted copy is located exactly anywhere in the periodic cell by both estimators, the returned "
             "aligned image (phase ramp = roll for integer shifts) reproduces the reference, swapping the images negates the result "
-            "for the NumPy and the torch estimator (torch.round is odd), and identical images give zero shift at every upsampling "
+            "for the NumPy and the torch estimator (torch.round is odd), both are invariant under a common intensity scale "
+            "(shift_scale_invariant), and identical images give zero shift at every upsampling "
             "factor: the patch maximum sits on the grid point the index->offset conversion maps to 0, it is strict exactly when no "
             "other patch offset leaves all non-zero Fourier coefficients in phase (proved iff), which holds for every image of at "
             "least 3x3 pixels with non-zero lowest coefficients on both axes (hypothesis-free corollary + 3x3 witness for all "
             "factors); ties do occur for single-column and constant images (counterexample theorems). Sub-pixel accuracy is "
             "measured only. The model is tied to the code on every run by exact (integer image) and float64 differential runs of "
-            "the public functions, their kernels and their users (tomography, direct ptychography, drift align_translation).",
+            "the public functions (keyword and positional call forms, parameter order pinned), their kernels and their users "
+            "(tomography, direct ptychography, drift align_translation), over intensity scales 1e-12..1e6, a low-contrast pedestal "
+            "class and call histories on shared arrays.",
     "note": "Trusted: Lean kernel + propext/Classical.choice/Quot.sound; np.fft/torch.fft are assumed to compute the defining "
             "sums (exercised by every stream); IEEE rounding; torch float32 kernel precision in dftUpsample_torch. Moved from "
             "measured to proved in round 2: the correlation theorem, the Fourier shift theorem for the aligned image, the strict "
@@ -57,23 +60,53 @@ def _iu():
     return iu
 
 
-def impl_np(ref, im, up=1, max_shift=None, ret_img=False, fft_input=False, fft_output=False):
+PINNED_SIGNATURES = {
+    "cross_correlation_shift": ["im_ref", "im", "upsample_factor", "max_shift", "return_shifted_image", "fft_input", "fft_output", "device"],
+    "dft_upsample": ["F", "up", "shift", "device"],
+    "cross_correlation_shift_torch": ["im_ref", "im", "upsample_factor"],
+    "align_images_fourier_torch": ["G1", "G2", "upsample_factor"],
+    "upsampled_correlation_torch": ["imageCorr", "upsampleFactor", "xyShift"],
+    "dftUpsample_torch": ["imageCorr", "upsampleFactor", "xyShift"],
+}
+
+
+def check_signatures(ctx):
+    """the parameter ORDER of the anchored estimators is part of the tie: positional callers depend on it"""
+    import inspect
+    iu = _iu()
+    for name, want in PINNED_SIGNATURES.items():
+        got = list(inspect.signature(getattr(iu, name)).parameters)
+        if got != want:
+            ctx.disagree("signature", {"stream": "signature", "function": name}, want, got,
+                         note=f"parameter order of {name} differs from the pinned signature (positional callers bind differently)")
+
+
+def impl_np(ref, im, up=1, max_shift=None, ret_img=False, fft_input=False, fft_output=False, positional=False):
     iu = _iu()
     a = np.fft.fft2(ref) if fft_input else np.array(ref, dtype=float)
     b = np.fft.fft2(im) if fft_input else np.array(im, dtype=float)
     with np.errstate(all="ignore"):
-        r = iu.cross_correlation_shift(a, b, upsample_factor=up, max_shift=max_shift, return_shifted_image=ret_img,
-                                       fft_input=fft_input, fft_output=fft_output)
+        if positional:   # (im_ref, im, upsample_factor, max_shift, return_shifted_image, fft_input, fft_output)
+            r = iu.cross_correlation_shift(a, b, up, max_shift, ret_img, fft_input, fft_output)
+        else:
+            r = iu.cross_correlation_shift(a, b, upsample_factor=up, max_shift=max_shift, return_shifted_image=ret_img,
+                                           fft_input=fft_input, fft_output=fft_output)
     if ret_img:
-        return np.asarray(r[0], dtype=float), np.asarray(r[1])
-    return np.asarray(r, dtype=float), None
+        if isinstance(r, tuple) and len(r) == 2:
+            return np.asarray(r[0], dtype=float), np.asarray(r[1])
+        # not the (shift, image) pair that was asked for: hand back whatever looks like a shift
+        flat = np.real(np.asarray(r)).ravel()
+        return (np.asarray(flat[:2], dtype=float) if flat.size >= 2 else np.array([np.nan, np.nan])), None
+    flat = np.real(np.asarray(r[0] if isinstance(r, tuple) else r)).ravel()
+    return (np.asarray(flat[:2], dtype=float) if flat.size >= 2 else np.array([np.nan, np.nan])), None
 
 
-def impl_torch(ref, im, up=2, dtype="float64"):
+def impl_torch(ref, im, up=2, dtype="float64", positional=False):
     import torch
     iu = _iu()
     dt = torch.float64 if dtype == "float64" else torch.float32
-    r = iu.cross_correlation_shift_torch(torch.tensor(np.asarray(ref), dtype=dt), torch.tensor(np.asarray(im), dtype=dt), upsample_factor=up)
+    ta, tb = torch.tensor(np.asarray(ref), dtype=dt), torch.tensor(np.asarray(im), dtype=dt)
+    r = iu.cross_correlation_shift_torch(ta, tb, up) if positional else iu.cross_correlation_shift_torch(ta, tb, upsample_factor=up)
     return np.asarray(r.detach().cpu().numpy(), dtype=float)
 
 
@@ -278,6 +311,58 @@ def cmp_shift(obs, model, M, N, tol):
     return d <= tol * max(1.0, abs(model[0]), abs(model[1])), d
 
 
+SCALES = [["pow2", -40], ["pow2", -30], ["pow2", -10], ["pow2", 10], ["pow2", 20], ["dec", 1e-12], ["dec", 1e-9], ["dec", 1e-3], ["dec", 1e3], ["dec", 1e6]]
+
+
+def scale_checks(ctx, case, ref, im, M, N, up, t, scale, pow2_only=False):
+    """intensity-scale class: shift(c*a, c*b) == shift(a, b) for c > 0 (bit-identical when c is a power of two), for both
+    estimators and both torch dtypes; if the applied integer translation `t` is known the scaled pair must recover it too"""
+    kind, val = scale
+    if pow2_only and kind != "pow2":
+        return
+    c = 2.0 ** val if kind == "pow2" else float(val)
+    ctx.dist[f"scale:{kind}:{val}"] += 1
+    exact = kind == "pow2"
+    sref, sim = ref * c, im * c
+    b_np, _ = impl_np(ref, im, up=up)
+    s_np, _ = impl_np(sref, sim, up=up)
+    d = max(mod_dist(s_np[0], b_np[0], M), mod_dist(s_np[1], b_np[1], N)) if np.all(np.isfinite(s_np)) else float("inf")
+    ctx.stat_max(f"scale_invariance_err[np,{kind}]", d)
+    if d > (0.0 if exact else TOL64):
+        ctx.pred_fail(f"np-scale-invariance-{up_key(up)}", "shift(c*a, c*b) differs from shift(a, b) for an intensity scale c > 0", dict(case, scale=scale),
+                      observed={"scaled": s_np.tolist(), "unscaled": b_np.tolist()}, required="identical")
+    if t is not None:
+        pred_integer_shift(ctx, dict(case, scale=scale), "np-scaled", s_np, M, N, t, up, TOL64)
+    tup = max(up, 1)
+    for dt in ("float64", "float32"):
+        b_t = impl_torch(ref, im, up=tup, dtype=dt)
+        s_t = impl_torch(sref, sim, up=tup, dtype=dt)
+        d = max(mod_dist(s_t[0], b_t[0], M), mod_dist(s_t[1], b_t[1], N)) if np.all(np.isfinite(s_t)) else float("inf")
+        ctx.stat_max(f"scale_invariance_err[torch-{dt},{kind}]", d)
+        tol = 0.0 if exact else (TOL64 if (tup <= 2 and dt == "float64") else TOL32)
+        if d > tol:
+            ctx.pred_fail(f"torch-scale-invariance-{up_key(tup) if tup > 2 else 'up1'}", "shift(c*a, c*b) differs from shift(a, b) for an intensity scale c > 0 (torch)",
+                          dict(case, scale=scale, dtype=dt), observed={"scaled": s_t.tolist(), "unscaled": b_t.tolist()}, required="identical")
+        if t is not None:
+            pred_integer_shift(ctx, dict(case, scale=scale, dtype=dt), f"torch-scaled", s_t, M, N, t, tup,
+                               TOL64 if (tup <= 2 and dt == "float64") else TOL32)
+
+
+def pedestal_checks(ctx, case, ints, t, M, N, up):
+    """low contrast on a pedestal (1 + 2^-22 * image, float64): the applied integer translation must still be found; the
+    conditioning of the un-normalised correlation limits the accuracy of the parabola, hence the 0.05 px class"""
+    ref = 1.0 + (2.0 ** -22) * ints
+    im = np.roll(ref, (t[0], t[1]), (0, 1))
+    exp = (centred(-t[0], M), centred(-t[1], N))
+    ctx.dist["pedestal:cases"] += 1
+    for variant, obs in (("np", impl_np(ref, im, up=up)[0]), ("torch", impl_torch(ref, im, up=max(up, 1)))):
+        err = max(mod_dist(obs[0], exp[0], M), mod_dist(obs[1], exp[1], N)) if np.all(np.isfinite(obs)) else float("inf")
+        ctx.stat_max(f"pedestal_err[{variant}]", err)
+        if not err <= 0.05:
+            ctx.pred_fail(f"{variant}-pedestal-low-contrast", "integer translation of a low-contrast image on a pedestal is not recovered", dict(case, pedestal=True),
+                          observed=[float(obs[0]), float(obs[1])], required=list(exp))
+
+
 # ---------------------------------------------------------------------------------------
 # streams
 
@@ -315,7 +400,12 @@ def case_exact(ctx, drv, case):
         ctx.dist["exact:rejected(non-unique peak or degenerate parabola)"] += 1
         return
     # ---- implementation: NumPy
-    obs, aligned = impl_np(ref, im, up=1, max_shift=ms, ret_img=o["ret"], fft_input=o["fft_input"], fft_output=o["fft_output"])
+    pos = bool(case.get("positional"))
+    ctx.dist[f"exact:call form={'positional' if pos else 'keyword'}"] += 1
+    obs, aligned = impl_np(ref, im, up=1, max_shift=ms, ret_img=o["ret"], fft_input=o["fft_input"], fft_output=o["fft_output"], positional=pos)
+    if o["ret"] and aligned is None:
+        ctx.pred_fail("np-call-form", "cross_correlation_shift(..., return_shifted_image=True) did not return a (shift, image) pair "
+                      f"({'positional' if pos else 'keyword'} call)", case, observed="no image", required="(shifts, image_shifted)")
     mshift = [float(rat(x)) for x in mnp["shift"]]
     ok, d = cmp_shift(obs, mshift, M, N, TOL64)
     ctx.stat_max("exact:np model-vs-impl shift", d)
@@ -324,7 +414,7 @@ def case_exact(ctx, drv, case):
                      note=f"cross_correlation_shift vs shiftNp1 (model exact {mnp['shift']}, peak {mnp['peak']}, dx {mnp['dx']}, dy {mnp['dy']})")
     # ---- implementation: torch (upsample_factor 1 and 2 take the same path)
     tup = case.get("tup", 2)
-    tobs = impl_torch(ref, im, up=tup)
+    tobs = impl_torch(ref, im, up=tup, positional=pos)
     tshift = [float(rat(x)) for x in mto["shift"]]
     if rat(mto["tie"]) < __import__("fractions").Fraction(1, 1000):
         ctx.dist["exact:torch half-pixel rounding tie skipped"] += 1
@@ -359,6 +449,10 @@ def case_exact(ctx, drv, case):
         stobs = impl_torch(im, ref, up=tup)
         if rat(mto["tie"]) >= __import__("fractions").Fraction(1, 1000):
             pred_swap(ctx, case, "torch", tobs, stobs, M, N, tup, TOL64)
+    if case.get("scale") and ms is None:
+        auto_ok = t is not None and unique_peak(cc_int(ref, ref))[0]
+        if t is None or auto_ok:
+            scale_checks(ctx, case, ref, im, M, N, 1, t if auto_ok else None, case["scale"], pow2_only=(t is None))
     ctx.sample({k: case[k] for k in case if k != "img2"}, limit=2)
 
 
@@ -387,6 +481,10 @@ def gen_exact(rng):
     ret = rng.chance(0.5)
     case["opts"] = {"max_shift": ms, "fft_input": rng.chance(0.35), "ret": ret, "fft_output": ret and rng.chance(0.5)}
     case["tup"] = rng.choice([1, 2])
+    r2 = rng.fork(91)
+    case["positional"] = r2.chance(0.4)
+    if r2.chance(0.5):
+        case["scale"] = r2.choice(SCALES)
     return case
 
 
@@ -406,8 +504,17 @@ def case_upint(ctx, drv, case):
     ident = (t[0] % M == 0 and t[1] % N == 0)
     ctx.dist[f"upint:{'identical' if ident else 'integer-shift'}"] += 1
     ctx.dist[f"upint:up={up}"] += 1
-    obs, aligned = impl_np(ref, im, up=up, ret_img=True)
-    tobs = impl_torch(ref, im, up=up)
+    pos = bool(case.get("positional"))
+    obs, aligned = impl_np(ref, im, up=up, ret_img=True, positional=pos)
+    tobs = impl_torch(ref, im, up=up, positional=pos)
+    if aligned is None:
+        ctx.pred_fail("np-call-form", "cross_correlation_shift(..., return_shifted_image=True) did not return a (shift, image) pair", case,
+                      observed="no image", required="(shifts, image_shifted)")
+        aligned = np.full_like(ref, np.nan)
+    if case.get("scale"):
+        scale_checks(ctx, case, ref, im, M, N, up, t, case["scale"])
+    if case.get("pedestal") and not (t[0] % M == 0 and t[1] % N == 0):
+        pedestal_checks(ctx, case, ref, t, M, N, up)
     pred_integer_shift(ctx, case, "np", obs, M, N, t, up, TOL64)
     pred_integer_shift(ctx, case, "torch", tobs, M, N, t, up, TOL64 if up <= 2 else TOL32)
     okA, dA = close(aligned, ref, 1e-7)
@@ -495,6 +602,8 @@ def case_subpixel(ctx, drv, case):
     if terr > 1.0 / max(up, 1) + 1e-9:
         ctx.pred_fail(f"torch-swap-subpixel", "swapping the two images does not negate the returned shift (beyond one upsampled pixel)", case,
                       observed={"ab": [float(x) for x in tobs], "ba": [float(x) for x in stobs]}, required="ab == -ba within 1/upsample_factor")
+    if case.get("scale"):
+        scale_checks(ctx, case, ref, im, M, N, up, None, case["scale"], pow2_only=True)
     ctx.mark(("subpixel", shape_sig(M, N), up, o["fft_input"], o["fft_output"]))
     # ---- model (float64)
     if case.get("drv", True):
@@ -547,7 +656,8 @@ def gen_subpixel(rng, i):
         t[0] = rng.uniform(-0.5, 0.5)
     ret_f = rng.chance(0.3)
     return {"stream": "subpixel", "M": M, "N": N, "sub": rng.next() & 0xFFFFFFFF, "t": t, "up": up,
-            "opts": {"fft_input": rng.chance(0.3), "fft_output": ret_f}}
+            "opts": {"fft_input": rng.chance(0.3), "fft_output": ret_f},
+            "scale": rng.choice([sc for sc in SCALES if sc[0] == "pow2"]) if rng.chance(0.5) else None}
 
 
 def case_kernels(ctx, drv, case):
@@ -831,6 +941,7 @@ def run(ctx):
     torch.set_num_threads(2)
     drv = Driver("C13")
     try:
+        check_signatures(ctx)
         rng = ctx.rng.fork(1)
         for i in range(ctx.n(300, 3000)):
             run_case(ctx, drv, gen_exact(rng.fork(i)))
@@ -847,7 +958,8 @@ def run(ctx):
             M, N = gen_shape(r, 4, 10)
             up = r.choice([2, 3, 4, 5, 7, 8, 16, 33, 64])
             run_case(ctx, drv, {"stream": "upint", "img": gen_int_image(r, M, N), "t": [r.randint(-M, 2 * M), r.randint(0, N - 1)], "up": up,
-                                "drv": up <= 8 and r.chance(0.4), "swap": r.chance(0.5)})
+                                "drv": up <= 8 and r.chance(0.4), "swap": r.chance(0.5), "positional": r.chance(0.4),
+                                "scale": r.choice(SCALES) if r.chance(0.6) else None, "pedestal": r.chance(0.3)})
         rng = ctx.rng.fork(3)
         for i in range(ctx.n(84, 700)):
             run_case(ctx, drv, gen_subpixel(rng.fork(i), i))
@@ -872,6 +984,10 @@ def replay(ctx, rep):
     case = rep.get("case") or (rep.get("correspondence_disagreements") or [{}])[0].get("case")
     if not case:
         return False
+    case = {k: v for k, v in case.items() if k not in ("failing_call", "dtype", "pedestal_flag")}
+    if case.get("stream") == "signature":
+        check_signatures(ctx)
+        return True
     drv = Driver("C13")
     try:
         run_case(ctx, drv, case)
